@@ -5,9 +5,13 @@
 package main
 
 import (
+	"bufio"
 	"fmt"
 	"io"
 	"os"
+	"sort"
+	"strconv"
+	"strings"
 	"sync"
 	"time"
 
@@ -15,7 +19,89 @@ import (
 
 	"verifharness/fw"
 	"verifharness/props/c02"
+	"verifharness/rng"
 )
+
+// sched: run what `vh run C02 --tier T --seed S` would run (open witnesses and corpus first, then the generated cases, same
+// order, same number of workers) and print when every case started and how long it took — to see what the wall time is made of.
+//
+//	c02probe -sched <tier> <seed> [extra-inputs-file|-] [tag]     (tag: only the generated cases with that tag)
+//
+// `input<TAB>observation` of every case that ran goes to /tmp/c02-sched.tsv (for the Lean driver).
+func sched(tier string, seed uint64, extra, only string) {
+	type it struct {
+		in         string
+		tags       []string
+		start, dur float64
+		obs        string
+		err        error
+	}
+	var items []*it
+	if extra != "" {
+		f, err := os.Open(extra)
+		if err == nil {
+			sc := bufio.NewScanner(f)
+			sc.Buffer(make([]byte, 1<<20), 1<<20)
+			for sc.Scan() {
+				l := strings.TrimSpace(sc.Text())
+				if l != "" && !strings.HasPrefix(l, "#") {
+					items = append(items, &it{in: l, tags: []string{"extra"}})
+				}
+			}
+			f.Close()
+		}
+	}
+	for _, c := range c02.Generate(tier, rng.New(seed)) {
+		if only != "" {
+			has := false
+			for _, t := range c.Tags {
+				has = has || t == only
+			}
+			if !has {
+				continue
+			}
+		}
+		items = append(items, &it{in: c.Input, tags: c.Tags})
+	}
+	t0 := time.Now()
+	ch := make(chan *it)
+	var wg sync.WaitGroup
+	for i := 0; i < c02.Workers; i++ {
+		wg.Add(1)
+		go func() {
+			defer wg.Done()
+			for x := range ch {
+				x.start = time.Since(t0).Seconds()
+				x.obs, x.err = c02.RunScenario(x.in)
+				x.dur = time.Since(t0).Seconds() - x.start
+			}
+		}()
+	}
+	for _, x := range items {
+		ch <- x
+	}
+	close(ch)
+	wg.Wait()
+	fmt.Printf("total %d cases, wall %.1fs\n", len(items), time.Since(t0).Seconds())
+	if f, err := os.Create("/tmp/c02-sched.tsv"); err == nil {
+		for _, x := range items {
+			if x.err == nil {
+				fmt.Fprintf(f, "%s\t%s\n", x.in, x.obs)
+			}
+		}
+		f.Close()
+	}
+	sort.SliceStable(items, func(i, j int) bool { return items[i].start+items[i].dur > items[j].start+items[j].dur })
+	for i, x := range items {
+		if i < 25 || x.dur > 15 || x.err != nil {
+			e := ""
+			if x.err != nil {
+				e = " ERR " + x.err.Error()
+			}
+			fmt.Printf("start %6.1f dur %6.1f end %6.1f %v %s%s\n", x.start, x.dur, x.start+x.dur, x.tags, x.in, e)
+		}
+	}
+}
 
 func main() {
 	logrus.SetOutput(io.Discard)
@@ -29,6 +115,23 @@ func main() {
 			os.Exit(1)
 		}
 		return
+	}
+	if len(args) >= 3 && args[0] == "-sched" {
+		seed, _ := strconv.ParseUint(args[2], 10, 64)
+		extra, only := "", ""
+		if len(args) > 3 && args[3] != "-" {
+			extra = args[3]
+		}
+		if len(args) > 4 {
+			only = args[4]
+		}
+		sched(args[1], seed, extra, only)
+		return
+	}
+	if len(args) > 1 && args[0] == "-ceiling" {
+		n, _ := strconv.Atoi(args[1])
+		c02.SetReqCeiling(time.Duration(n) * time.Second)
+		args = args[2:]
 	}
 	if len(args) > 0 && args[0] == "-v" {
 		args = args[1:]
